@@ -90,6 +90,14 @@ def sweep(run, definitions, n_hash, n_orders):
         by_def.setdefault((tuple(args[0][:3]) + (tuple(args[0][3]),), args[1]), []).append((args, dig))
     for key, lst in by_def.items():
         ref_args, ref = lst[0]
+        # generating twice in ONE process
+        for args, dig in lst:
+            if dig.get("regenerated_header_sha256", dig["header_sha256"]) != dig["header_sha256"] or dig.get("regenerated_source_sha256", dig["source_sha256"]) != dig["source_sha256"]:
+                fails += 1
+                which = "header" if dig.get("regenerated_header_sha256") != dig["header_sha256"] else "source"
+                ob = run.prove(f"C15.native.same_output_when_generated_twice_in_one_process[{fails}]", [], z3.BoolVal(False), function="generation in subprocesses (PYTHONHASHSEED x declaration order x container)")
+                run.findings.append(Finding(ob.name, "regen", f"definition shape {[key[0][0], key[0][1], key[0][2], list(key[0][3])]} seed {key[1]}: the second generation in the same process (hashseed {args[4]}, order {args[3]}, {args[2]}) produced a different {which}", {"language": "python", "inputs": {"shape": [key[0][0], key[0][1], key[0][2], list(key[0][3])], "seed": key[1], "a": {"hashseed": args[4], "order_seed": args[3], "container": args[2]}, "b": {"hashseed": args[4], "order_seed": args[3], "container": args[2]}, "regenerate": True}, "oracle_verdict": [f"{which} differs on regeneration"]}, True))
+                break
         for args, dig in lst[1:]:
             diff = first_difference(ref, dig)
             if diff:
@@ -131,6 +139,10 @@ def replay_file(payload):
     if a is None or b is None:
         print("replay C15: worker failed", ea or eb)
         return True
+    if inp.get("regenerate"):
+        same = a["regenerated_header_sha256"] == a["header_sha256"] and a["regenerated_source_sha256"] == a["source_sha256"]
+        print("replay C15: second generation in one process", "identical" if same else "DIFFERS")
+        return same
     d = first_difference(a, b)
     if d and a.get("header") != b.get("header"):
         la, lb = a["header"].splitlines(), b["header"].splitlines()
